@@ -7,3 +7,9 @@ Lemma gen_loop_consts_agree : GenLoop.growth_factor = LoopModel.growth_factor /\
 Proof. repeat split; try reflexivity; discriminate. Qed.
 Lemma gen_sparse_chunk_agrees : GenLoop.sparse_chunk_bits = SparseModel.CHUNK.
 Proof. reflexivity. Qed.
+
+(* the recursion of Slot::finalise / Slot::floodShift over a cluster goes one level deeper on EVERY recursive call — to the first child
+   and to the next sibling alike — which is how Model/PosModel.v spends its fuel; with an increment of 0 on either call the depth
+   cut-off would no longer bound the recursion (sibling lists are unbounded) *)
+Lemma gen_depth_incs_agree : GenLoop.fin_child_depth_inc = 1 /\ GenLoop.fin_sibling_depth_inc = 1 /\ GenLoop.flood_child_depth_inc = 1 /\ GenLoop.flood_sibling_depth_inc = 1.
+Proof. repeat split; reflexivity. Qed.
